@@ -22,6 +22,7 @@ type Case struct {
 	D   string    `json:"d"`
 	Xs  []kit.Val `json:"xs"`
 	Pad int       `json:"pad,omitempty"` // the inputs are repeated cyclically up to this buffer length
+	Fix int       `json:"fix,omitempty"` // source construction order, see convtab.Entry.NewBlockFix
 }
 
 var Pairs = convtab.Select("FloatAsSigned", "FloatAsUnsigned")
@@ -69,7 +70,7 @@ func Check(c *Case) (res kit.Result) {
 		}
 		xs[i] = v.F
 	}
-	if c.Pad < 0 || c.Pad > 1<<20 {
+	if c.Pad < 0 || c.Pad > 1<<20 || c.Fix < 0 || c.Fix > 2 {
 		return kit.Result{}
 	}
 	if c.Pad > len(xs) {
@@ -78,7 +79,7 @@ func Check(c *Case) (res kit.Result) {
 	xs = kit.PadFloats(xs, c.Pad)
 	sort.Float64s(xs)
 	out := make([]int64, len(xs))
-	if p, v := kit.Try(func() { e.NewBlock()(nil, xs, out, nil) }); p {
+	if p, v := kit.Try(func() { e.NewBlockFix(c.Fix)(nil, xs, out, nil) }); p {
 		res.Failf("%s panicked: %v", e, v)
 		return
 	}
@@ -113,6 +114,7 @@ func FP(c *Case) uint64 {
 	h.Str(c.D)
 	h.Int(len(c.Xs))
 	h.Int(c.Pad)
+	h.Int(c.Fix)
 	for _, v := range c.Xs {
 		h.U64(math.Float64bits(v.F))
 	}
@@ -135,6 +137,7 @@ func Gen(t *rapid.T) *Case {
 	e := Pairs[rapid.IntRange(0, len(Pairs)-1).Draw(t, "inst")]
 	c := &Case{S: e.S.Name, D: e.D.Name}
 	c.Pad = kit.GenPad(t)
+	c.Fix = rapid.IntRange(0, 2).Draw(t, "fix")
 	n := rapid.IntRange(1, 16).Draw(t, "n")
 	is32 := e.S.Bits == 32
 	for i := 0; i < n; i++ {
